@@ -133,6 +133,10 @@ impl ContinuityStreamCache {
         if writer.flush().is_err() {
             return;
         }
+        #[cfg(rip_verif)]
+        let verif_ctx = format!("{}:{}", continuity_id, event.seq);
+        #[cfg(rip_verif)]
+        rip_kernel::verif::point("cache.full", &verif_ctx);
 
         // Best-effort indexes (rebuildable caches) to avoid full sidecar scans.
         if event.seq.is_multiple_of(SEEK_INDEX_STRIDE_EVENTS_V1) {
@@ -141,6 +145,8 @@ impl ContinuityStreamCache {
                 &seek_path,
                 &SeqSeekIndexEntryV1::new(event.seq, offset),
             );
+            #[cfg(rip_verif)]
+            rip_kernel::verif::point("cache.seek", &verif_ctx);
         }
         if matches!(
             &event.kind,
@@ -148,6 +154,8 @@ impl ContinuityStreamCache {
         ) {
             let msg_path = message_index_path(&self.dir, continuity_id);
             insert_message_best_effort_v1(&msg_path, &path, &event.id, event.seq, offset);
+            #[cfg(rip_verif)]
+            rip_kernel::verif::point("cache.msgidx", &verif_ctx);
         }
 
         // Additional cache: messages+runs-only sidecar + indexes.
@@ -155,6 +163,8 @@ impl ContinuityStreamCache {
 
         // Additional cache: compaction checkpoints only (summary selection).
         self.append_compaction_checkpoints_best_effort_v1(event);
+        #[cfg(rip_verif)]
+        rip_kernel::verif::point("cache.done", &verif_ctx);
     }
 
     pub(crate) fn rebuild_best_effort(&self, continuity_id: &str, events: &[Event]) {
@@ -227,6 +237,10 @@ impl ContinuityStreamCache {
         if writer.flush().is_err() {
             return;
         }
+        #[cfg(rip_verif)]
+        let verif_ctx = format!("{}:{}", continuity_id, event.seq);
+        #[cfg(rip_verif)]
+        rip_kernel::verif::point("cache.mr", &verif_ctx);
 
         // Best-effort indexes (rebuildable caches).
         let seek_path = self.messages_runs_seq_index_path_v1(continuity_id);
@@ -237,12 +251,18 @@ impl ContinuityStreamCache {
                 &seek_path,
                 &SeqSeekIndexEntryV1::new(event.seq, offset),
             );
+            #[cfg(rip_verif)]
+            rip_kernel::verif::point("cache.mr.seek", &verif_ctx);
         }
         if matches!(&event.kind, EventKind::ContinuityMessageAppended { .. }) {
             let msg_path = self.messages_runs_message_index_path_v1(continuity_id);
             insert_message_best_effort_v1(&msg_path, &path, &event.id, event.seq, offset);
+            #[cfg(rip_verif)]
+            rip_kernel::verif::point("cache.mr.msgidx", &verif_ctx);
             let ord_path = self.messages_runs_message_ordinal_index_path_v1(continuity_id);
             append_message_record_best_effort_v1(&ord_path, event.seq, &event.id);
+            #[cfg(rip_verif)]
+            rip_kernel::verif::point("cache.mr.ord", &verif_ctx);
         }
     }
 
@@ -278,10 +298,16 @@ impl ContinuityStreamCache {
             return;
         }
         let _ = writer.flush();
+        #[cfg(rip_verif)]
+        let verif_ctx = format!("{}:{}", continuity_id, event.seq);
+        #[cfg(rip_verif)]
+        rip_kernel::verif::point("cache.comp", &verif_ctx);
 
         if let Some(entry) = CompactionCheckpointIndexEntryV1::from_event(event) {
             let idx_path = self.compaction_checkpoints_index_path_for_v1(continuity_id);
             append_compaction_checkpoint_index_entry_best_effort_v1(&idx_path, &entry);
+            #[cfg(rip_verif)]
+            rip_kernel::verif::point("cache.comp.idx", &verif_ctx);
         }
     }
 
